@@ -59,6 +59,12 @@ static struct {
     int failed;
 } STO[NSTO];
 
+#ifdef MOCK_APPEND_LOG
+static const uint8_t* mock_app_beg[MOCK_APPEND_LOG];
+static size_t mock_app_len[MOCK_APPEND_LOG];
+static int mock_napp;
+#endif
+
 static struct ImageShape
 mock_shape(void)
 {
@@ -160,6 +166,12 @@ ms_append(struct Storage* s, const struct VideoFrame* frames, size_t* nbytes)
         STO[id].failed = 1;
         return DeviceState_AwaitingConfiguration;
     }
+#ifdef MOCK_APPEND_LOG
+    /* only record where the packet lies; the harness checks the log against its linear tape */
+    if (mock_napp < MOCK_APPEND_LOG) { mock_app_beg[mock_napp] = (const uint8_t*)frames; mock_app_len[mock_napp] = *nbytes; }
+    ++mock_napp;
+    return DeviceState_Running;
+#endif
     /* packet = whole frames, exactly chained, 8-byte aligned (C05) */
     const uint8_t* cur = (const uint8_t*)frames;
     const uint8_t* end = cur + *nbytes;
